@@ -453,8 +453,13 @@ func identityDesc(name string) *grpc.ServiceDesc {
 		scrub(tmd, "open")
 		tmd2, _ := grpctunnel.TunnelMetadataFromIncomingContext(ctx)
 		rmd, _ := metadata.FromIncomingContext(ctx)
-		return &wrapperspb.StringValue{Value: fmt.Sprintf("svc=%s tag=%s peer=%v tmdok=%v open=%s mut=%d x=%s", name, tag, hasPeer, ok,
-			strings.Join(tmd2.Get("open"), ","), len(tmd2.Get("mutated")), strings.Join(rmd.Get("x"), ","))}, nil
+		var keys []string
+		for k := range rmd {
+			keys = append(keys, k)
+		}
+		sort.Strings(keys)
+		return &wrapperspb.StringValue{Value: fmt.Sprintf("svc=%s tag=%s peer=%v tmdok=%v open=%s mut=%d x=%s keys=%s", name, tag, hasPeer, ok,
+			strings.Join(tmd2.Get("open"), ","), len(tmd2.Get("mutated")), strings.Join(rmd.Get("x"), ","), strings.Join(keys, ","))}, nil
 	}
 	return &grpc.ServiceDesc{ServiceName: "v.I", HandlerType: (*any)(nil), Methods: []grpc.MethodDesc{{MethodName: "Who", Handler: h}},
 		Streams: []grpc.StreamDesc{{StreamName: "S", ClientStreams: true, ServerStreams: true, Handler: func(_ any, st grpc.ServerStream) error {
@@ -505,12 +510,21 @@ func TestW2Identity(t *testing.T) {
 			defer func() { c3(); c2(); c1() }()
 			check := func(label string, ch grpctunnel.TunnelChannel, wantOpen, wantSvc string) {
 				var resp wrapperspb.StringValue
-				ctx, cancel := context.WithTimeout(metadata.AppendToOutgoingContext(context.Background(), "x", label), 5*time.Second)
+				// every other RPC carries no request metadata at all: its handler must see none - in particular not the
+				// metadata the tunnel was opened with, which its context inherits everything else from
+				bare := strings.HasSuffix(label, "-bare")
+				base := context.Background()
+				wantX, wantKeys := "", ""
+				if !bare {
+					base = metadata.AppendToOutgoingContext(base, "x", label)
+					wantX, wantKeys = label, "x"
+				}
+				ctx, cancel := context.WithTimeout(base, 5*time.Second)
 				defer cancel()
 				var used grpctunnel.TunnelChannel
 				err := ch.Invoke(ctx, "/v.I/Who", &wrapperspb.StringValue{Value: "q"}, &resp, grpctunnel.WithTunnelChannel(&used))
 				res := "ok"
-				want := fmt.Sprintf("svc=%s tag=planted peer=true tmdok=true open=%s mut=0 x=%s", wantSvc, wantOpen, label)
+				want := fmt.Sprintf("svc=%s tag=planted peer=true tmdok=true open=%s mut=0 x=%s keys=%s", wantSvc, wantOpen, wantX, wantKeys)
 				if err != nil {
 					res = "BAD:rpc:" + fmtStatus(err)
 				} else if resp.Value != want {
@@ -541,6 +555,8 @@ func TestW2Identity(t *testing.T) {
 				check(fmt.Sprintf("a%d", round), ch1, "fwd1", "outer")
 				check(fmt.Sprintf("b%d", round), ch2, "fwd2", "outer")
 				check(fmt.Sprintf("n%d", round), nested, "nested", "inner")
+				check(fmt.Sprintf("a%d-bare", round), ch1, "fwd1", "outer")
+				check(fmt.Sprintf("n%d-bare", round), nested, "nested", "inner")
 			}
 		})
 	}
